@@ -341,6 +341,10 @@ class Loader:
         if key in self.externals:
             return self.externals[key]
         from .values import Opaque
+        if (mod, attr) == ("types", "NoneType"):
+            v = self.ext_class("NoneType", type(None))
+            self.externals[key] = v
+            return v
         v = Opaque(f"ext:{mod}.{attr}")
         self.externals[key] = v
         return v
